@@ -91,6 +91,7 @@ template<typename T> void register_varopt(const std::string& name, int nvariants
     auto s = gen_varopt<T>(v, r, small);
     const std::string ctx = "variant=" + std::to_string(v) + " k=" + std::to_string(s.get_k()) + " n=" + std::to_string(s.get_n());
     const std::string b = write_varopt(s, false), st = write_varopt(s, true);
+    check_header_variants("varopt", b, [&](unsigned h) { return s.serialize(h); }, ctx);
     for (int p = 0; p < (b == st ? 1 : 2); ++p) {
       const std::string& img = p ? st : b;
       VarOpt<T> d = decode_varopt<T>(img.data(), img.size());
@@ -154,6 +155,7 @@ template<typename T> void register_varopt_union(const std::string& name, int nva
     auto u = gen_varopt_union<T>(v, r, small);
     const std::string ctx = "variant=" + std::to_string(v);
     const std::string b = write_varopt_union(u, false), st = write_varopt_union(u, true);
+    check_header_variants("varopt_union", b, [&](unsigned h) { return u.serialize(h); }, ctx);
     for (int p = 0; p < (b == st ? 1 : 2); ++p) {
       const std::string& img = p ? st : b;
       VarOptUnion<T> d = decode_varopt_union<T>(img.data(), img.size());
@@ -245,6 +247,7 @@ template<typename T> void register_ebpps(const std::string& name, int nvariants)
     auto s = gen_ebpps<T>(v, r, small);
     const std::string ctx = "variant=" + std::to_string(v) + " k=" + std::to_string(s.get_k()) + " n=" + std::to_string(s.get_n());
     const std::string b = write_ebpps(s, false), st = write_ebpps(s, true);
+    check_header_variants("ebpps", b, [&](unsigned h) { return s.serialize(h); }, ctx);
     for (int p = 0; p < (b == st ? 1 : 2); ++p) {
       const std::string& img = p ? st : b;
       Ebpps<T> d = decode_ebpps<T>(img.data(), img.size());
@@ -332,6 +335,7 @@ template<typename T> void register_tdigest(const std::string& name, int nvariant
     tdigest<T>& s = st.sk;
     const std::string ctx = "variant=" + std::to_string(v) + " k=" + std::to_string(s.get_k()) + " n=" + std::to_string(s.get_total_weight()) + (st.with_buffer ? " with_buffer" : "");
     const std::string b = write_tdigest(s, st.with_buffer, false), sm = write_tdigest(s, st.with_buffer, true);
+    check_header_variants("tdigest", b, [&](unsigned h) { return s.serialize(h, st.with_buffer); }, ctx);
     for (int p = 0; p < (b == sm ? 1 : 2); ++p) {
       const std::string& img = p ? sm : b;
       Tdigest<T> d = decode_tdigest<T>(img.data(), img.size());
@@ -441,6 +445,7 @@ inline void register_bloom() {
     bloom_filter& s = st.bf;
     const std::string ctx = "variant=" + std::to_string(v) + " bits=" + std::to_string(s.get_capacity()) + " hashes=" + std::to_string(s.get_num_hashes()) + " inputs=" + std::to_string(st.inputs.size());
     const std::string b = write_bloom(s, false), sm = write_bloom(s, true);
+    check_header_variants("bloom", b, [&](unsigned h) { return s.serialize(h); }, ctx);
     for (int p = 0; p < (b == sm ? 1 : 2); ++p) {
       const std::string& img = p ? sm : b;
       Bloom d = decode_bloom(img.data(), img.size());
@@ -522,6 +527,7 @@ template<typename T> void register_density(const std::string& name, int nvariant
     auto s = gen_density<T>(v, r, small);
     const std::string ctx = "variant=" + std::to_string(v) + " k=" + std::to_string(s.get_k()) + " dim=" + std::to_string(s.get_dim()) + " n=" + std::to_string(s.get_n());
     const std::string b = write_density(s, false), sm = write_density(s, true);
+    check_header_variants("density", b, [&](unsigned h) { return s.serialize(h); }, ctx);
     for (int p = 0; p < (b == sm ? 1 : 2); ++p) {
       const std::string& img = p ? sm : b;
       Density<T> d = decode_density<T>(img.data(), img.size());
